@@ -64,7 +64,7 @@ func fixedRuntime(cs *Case, salt int) {
 
 // gridCases enumerates operator x signedness x width x boundary operand
 // values (all pairs) with all contexts; spelling dimensions rotate.
-func gridCases(widths []int, full bool, yield func(Case) bool) {
+func gridCases(widths []int, full, allCtx bool, yield func(Case) bool) {
 	shard, nshards := ev.Shard()
 	idx := 0
 	emit := func(cs Case) {
@@ -74,6 +74,14 @@ func gridCases(widths []int, full bool, yield func(Case) bool) {
 		}
 		cs.Bind = binds[idx%len(binds)]
 		cs.Res = ress[(idx/3)%len(ress)]
+		if allCtx {
+			cs.Ctxs = []string{"*"}
+		} else {
+			names := cs.ctxNames()
+			for i := 0; i < 2; i++ {
+				cs.Ctxs = append(cs.Ctxs, names[(idx+i*7)%len(names)])
+			}
+		}
 		fixedRuntime(&cs, idx)
 		yield(cs)
 	}
@@ -159,7 +167,7 @@ func TestGrid(t *testing.T) {
 		full = true
 	}
 	ev.Each(t, col, "fold", func(yield func(Case) bool) {
-		gridCases(widths, full, yield)
+		gridCases(widths, full, false, yield)
 	}, run)
 	col.Note("grid sub-run: operators x {int,uint} x widths %v x all pairs of boundary operand values x all contexts", widths)
 }
@@ -171,14 +179,14 @@ func TestSurvey(t *testing.T) {
 	if path == "" {
 		t.Skip("C12_SURVEY not set")
 	}
-	widths := []int{1, 2, 8, 31, 32, 33, 63, 64, 65, 128}
+	widths := []int{1, 8, 32, 33, 64, 65, 128}
 	if os.Getenv("C12_SURVEY_FULL") != "" {
 		widths = widthTable
 	}
 	count := map[string]int{}
 	example := map[string]string{}
 	total := 0
-	gridCases(widths, os.Getenv("C12_SURVEY_FULL") != "", func(cs Case) bool {
+	gridCases(widths, os.Getenv("C12_SURVEY_FULL") != "", true, func(cs Case) bool {
 		total++
 		var fails []ev.Outcome
 		func() {
